@@ -670,7 +670,7 @@ func TestC02(t *testing.T) {
 	// 2. own generator
 	n := vh.N(260, 5000)
 	for i := 0; i < n; i++ {
-		p := newProgram(rng, gOpts{Avoid: avoid, Boundary: i%3 == 0})
+		p := newProgram(rng, gOpts{Avoid: avoid, Boundary: i%3 == 0, ShadowInit: true})
 		w.programs = append(w.programs, progCase{ID: fmt.Sprintf("mygen/%d", i), Src: p.Src, Origin: "mygen", Features: p.Features})
 
 		for _, f := range p.Features {
